@@ -8,8 +8,12 @@ mod parsum;
 mod prng;
 mod sc_dens;
 mod sc_gossip;
+mod sc_ordseq;
 mod sc_paramfile;
+mod sc_replicas;
+mod sc_restart;
 mod sc_sig;
+mod sc_small;
 mod sc_stream;
 mod sc_wstream;
 
@@ -33,6 +37,11 @@ macro_rules! scenarios {
     ($m:ident, $name:expr) => {
         match $name {
             "stream" => $m!(sc_stream::Stream),
+            "replicas" => $m!(sc_replicas::Replicas),
+            "restart" => $m!(sc_restart::Restart),
+            "tracker" => $m!(sc_small::TrackerSc),
+            "shuffle" => $m!(sc_small::ShuffleSc),
+            "ordseq" => $m!(sc_ordseq::OrdSeq),
             "sig" => $m!(sc_sig::SigSc),
             "wstream" => $m!(sc_wstream::WStream),
             "dens" => $m!(sc_dens::Dens),
@@ -60,6 +69,9 @@ fn main() {
         usage();
     }
     match args[1].as_str() {
+        "replica" => {
+            std::process::exit(sc_replicas::replica_child_main(args.get(2).map(|s| s.as_str()).unwrap_or("")));
+        }
         "paramchild" => {
             std::process::exit(sc_paramfile::child_main(&args[2..]));
         }
